@@ -158,7 +158,7 @@ fn ex_json(ex: &Exchange) -> Value {
 /// or None if the mutation degenerates to the authentic exchange.
 type Mutated = (String, Option<Vec<u8>>, Vec<u8>, Vec<u8>, u64, [u8; 32]);
 
-const N_STRUCT: usize = 30;
+const N_STRUCT: usize = 31;
 
 fn flip(v: &mut [u8], bit: usize) {
     v[bit / 8] ^= 1 << (bit % 8);
@@ -262,6 +262,12 @@ fn structural(ex: &Exchange, kind: usize, t: &mut Tape) -> Option<Mutated> {
             let mut other = ex.resp.clone();
             other.push(b' ');
             Some(("response body extended by one byte".into(), w(&plain), ex.req.clone(), other, id, ex.nonce))
+        }
+        30 => {
+            // the authentic signature in another encoding: fixed-width r || s instead of DER
+            let fixed = p256::ecdsa::Signature::from_der(&der).ok()?;
+            let raw: Vec<u8> = fixed.as_ref().to_vec();
+            base("authentic signature re-encoded as fixed-width r||s (not DER)", w(&format!("{}:{}", hex::encode(raw), hex::encode(rh))))
         }
         29 => {
             // a further ':'-separated component after the authentic hex(sig):hex(hash)
